@@ -126,8 +126,59 @@ class CouplingTaint(TaintDomain):
             return {"PARAMS"}  # the parameters are a function of what the conditioner saw; content labels stop here
         return ann
 
+    @staticmethod
+    def _items(av):
+        if av is None:
+            return None
+        if av.kind == "tuple":
+            return list(av.data)
+        if av.kind == "list" and av.data and av.data[0] is not None:
+            return list(av.data[0])
+        return None
+
     def xfer(self, interp, op, info, anns, recv, args, kwargs, node):
         out = set(anns)
+        # cat([identity_features, transform_features]) -- the split order as one index vector -- and
+        # cat([identity_split, transform_split], 1) -- the two splits side by side in that order
+        if op in ("cat", "concat", "concatenate"):
+            items = self._items(getattr(interp, "last_seq", None))
+            if items is not None and len(items) == 2:
+                a0, a1 = set(all_ann(self, items[0])), set(all_ann(self, items[1]))
+                out -= {"RAW", "OUT", "IDXCAT:ID,TR", "IDXCAT:TR,ID", "IDXINV:ID,TR", "IDXINV:TR,ID", "CAT:ID,TR", "CAT:TR,ID", "CATRAW"}
+                for first, second, order in ((a0, a1, "ID,TR"), (a1, a0, "TR,ID")):
+                    if "IDX:ID" in first and "IDX:TR" in second and "IDX:TR" not in first and "IDX:ID" not in second:
+                        return {"IDXCAT:" + order}
+                    if "ID" in first and "TR" not in first and "TR" in second:
+                        out.add("CAT:" + order)
+                        if "RAW" in first and not ({"U", "UINV", "PARAMS"} & first):
+                            out.add("CATRAW")
+                return out
+        if op == "argsort":
+            src = set(recv.ann) if recv is not None else set()
+            for a in args[:1]:
+                src |= set(all_ann(self, a))
+            for order in ("ID,TR", "TR,ID"):
+                if "IDXCAT:" + order in src:
+                    return {"IDXINV:" + order}
+        if op in ("subscript", "index_select"):
+            if op == "subscript":
+                idxv = set(_index_ann(self, args[0])) if args else set()
+                basev = set(recv.ann) if recv is not None else set()
+            else:
+                tens = [a for a in ([recv] if recv is not None else []) + list(args) if a is not None and a.kind == "tensor"]
+                basev = set(tens[0].ann) if tens else set()
+                idxv = set(tens[-1].ann) if len(tens) > 1 else set()
+            for order in ("ID,TR", "TR,ID"):
+                if "CAT:" + order in basev:
+                    res = (basev - {"CAT:" + order, "CATRAW", "RAW", "OUT"})
+                    if "IDXINV:" + order in idxv:
+                        # the concatenation read through the inverse of the split order: each split is back in place
+                        res |= {"PLACED:ID", "PLACED:TR"}
+                        if "CATRAW" in basev:
+                            res.add("PLACED-RAW")
+                        return res
+                    if any(l.startswith("IDXCAT:") or l.startswith("IDXINV:") or l in ("IDX:ID", "IDX:TR") for l in idxv):
+                        return res | {"MISPLACED"}
         if op == "subscript":
             idx = set(_index_ann(self, args[0])) if args else set()
             base = set(recv.ann) if recv is not None else set()
@@ -315,9 +366,44 @@ def _late_elem(ctx):
     return elementwise_rule(ctx)
 
 
+def cpl_layout_rule(ctx):
+    """CPL-LAYOUT = BM-ROWS restricted to the coupling module (shared with C12 / C02): on image inputs the
+    coupling hooks flatten to one row per pixel and come back; a reshape that stands in for the permute puts
+    each transformed value at another channel / pixel, so a transformed feature stops being a function of its
+    own input."""
+    from .c12 import rows_findings
+    from ..report import RuleResult
+    from ..model import AnalysisIncomplete
+
+    res = RuleResult("CPL-LAYOUT", "image paths of the coupling hooks: values come back at their own channel and pixel (no reshape stands in for a permute)")
+    probe = RuleResult("BM-ROWS", "")
+    findings, n = rows_findings(ctx.p, probe)
+    mine = 0
+    for note in list(getattr(probe, "instances", [])):
+        if "Coupling" in str(note):
+            res.ok(str(note))
+            mine += 1
+    for u in getattr(probe, "undecided", []):
+        if "Coupling" in str(u):
+            res.undecided.append(u)
+    seen = set()
+    for f in findings:
+        if not f.file.endswith("transforms/coupling.py"):
+            continue
+        key = (f.qualname, f.message)
+        if key in seen:
+            continue
+        seen.add(key)
+        f.rule = "CPL-LAYOUT"
+        res.fail(f)
+    if mine + len(res.findings) + len(res.undecided) < 2:
+        raise AnalysisIncomplete("CPL-LAYOUT: image code paths of %d coupling functions evaluated (< 2)" % mine)
+    return res
+
+
 register(
     "C07",
-    [part_rule, flow_rule, hooks_rule, _late_elem],
+    [part_rule, flow_rule, hooks_rule, _late_elem, cpl_layout_rule],
     "CPL-PART: the two index buffers of CouplingTransform are masked_select of the same arange(features) by predicates of the "
     "same mask that the condition normaliser proves complementary (a partition for every mask and any numeric values, entries "
     "> 0 transformed). CPL-COND/COPY/SCAT: information-flow analysis of CouplingTransform.forward and .inverse with labels "
